@@ -13,6 +13,7 @@ package c01
 import (
 	"encoding/json"
 	"fmt"
+	"io"
 	"os"
 	"sort"
 	"strings"
@@ -104,6 +105,9 @@ func diffLabel(exp, got stream) string {
 		if len(exp[i]) != len(got[i]) {
 			return fmt.Sprintf("fields-%d-to-%d/%s", min(len(exp[i]), 14), min(len(got[i]), 14), streamSymbols(stream{exp[i]}))
 		}
+		if isPermutation(exp[i], got[i]) {
+			return "field-order"
+		}
 		for j := range exp[i] {
 			if exp[i][j].K != got[i][j].K {
 				return "key/" + cellChange(exp[i][j].K, got[i][j].K)
@@ -114,6 +118,30 @@ func diffLabel(exp, got stream) string {
 		}
 	}
 	return "none"
+}
+
+func isPermutation(a, b rec) bool {
+	if len(a) != len(b) {
+		return false
+	}
+	m := map[kv]int{}
+	for _, f := range a {
+		m[f]++
+	}
+	for _, f := range b {
+		m[f]--
+	}
+	for _, n := range m {
+		if n != 0 {
+			return false
+		}
+	}
+	for i := range a {
+		if a[i] != b[i] {
+			return true
+		}
+	}
+	return false
 }
 
 // streamSymbols: the one special symbol of the stream when there is exactly
@@ -296,6 +324,9 @@ func rtWorker(w *vf.Worker) {
 		enumerate(quick, func(fam string, s stream) {
 			if famOnly != "" && !strings.HasPrefix(fam, famOnly) {
 				return
+			}
+			if !v.positional && familyIsPositional(fam) && fam != "1x1-positional" && fam != "1x3-positional" {
+				return // numeric names add nothing for the formats that carry names
 			}
 			block = append(block, s)
 			fams = append(fams, fam)
@@ -570,7 +601,7 @@ func stdCase(w *vf.Worker, p *parsed, fam string, s stream, t1 string) {
 		if w.Quick() {
 			maxBits = 3
 		}
-		wide := strings.HasPrefix(fam, "wide")
+		wide := strings.HasPrefix(fam, "wide") || (w.Quick() && (v.name == "csv-lazy" || v.name == "csv-ragged") && !strings.HasPrefix(fam, "1x1"))
 		type maskT struct {
 			m    map[cellRef]bool
 			full bool // run with every line-ending style
@@ -667,11 +698,21 @@ func stdCase(w *vf.Worker, p *parsed, fam string, s stream, t1 string) {
 				}
 			}
 		}
-	case "json", "jsonl":
+	case "json", "jsonl", "jsonseq":
 		w.Count("std|json|miller-texts", 1)
 		valid := true
 		if v.std == "json" {
 			valid = json.Valid([]byte(t1))
+		} else if v.std == "jsonseq" {
+			// a concatenation of JSON texts
+			dec := json.NewDecoder(strings.NewReader(t1))
+			for {
+				var x any
+				if err := dec.Decode(&x); err != nil {
+					valid = err == io.EOF
+					break
+				}
+			}
 		} else {
 			for _, line := range strings.Split(t1, "\n") {
 				if strings.TrimSpace(line) != "" && !json.Valid([]byte(line)) {
@@ -702,7 +743,7 @@ func stdCase(w *vf.Worker, p *parsed, fam string, s stream, t1 string) {
 				}
 			}
 		}
-		for _, st := range jsonStyles(w.Quick()) {
+		for _, st := range jsonStyles(!w.Quick() || strings.HasPrefix(fam, "1x1")) {
 			foreign(st.String(), jsonRender(s, st, false))
 			if hasNum {
 				foreign(st.String()+"/bare-numbers", jsonRender(s, st, true))
@@ -1041,19 +1082,30 @@ func run(c *vf.Ctx) {
 	perVariant := map[string]int64{}
 	streams := 0
 	{
-		seen := map[string]bool{}
-		var all []stream
+		type fs struct {
+			fam string
+			s   stream
+			k   string
+		}
+		var all []fs
+		seenAll := map[string]bool{}
 		enumerate(quick, func(fam string, s stream) {
 			k := s.String()
-			if !seen[k] {
-				seen[k] = true
-				all = append(all, s)
-			}
+			all = append(all, fs{fam, s, k})
+			seenAll[k] = true
 		})
-		streams = len(all)
+		streams = len(seenAll)
 		for _, v := range vs {
-			for _, s := range all {
-				if v.domain(s) == "" && nontrivial(s) {
+			seen := map[string]bool{}
+			for _, x := range all {
+				if !v.positional && familyIsPositional(x.fam) && x.fam != "1x1-positional" && x.fam != "1x3-positional" {
+					continue
+				}
+				if seen[x.k] {
+					continue
+				}
+				seen[x.k] = true
+				if v.domain(x.s) == "" && nontrivial(x.s) {
 					distinct++
 					perVariant[v.name]++
 				}
